@@ -82,9 +82,16 @@ SumSet == { << <<"so3", a>>, <<"r3", b>> >> : a \in {<<1,-2,2>>, <<0,0,1>>}, b \
      (* the same algebra twice with different parameters (factors are module-level singletons in the code) *)
      \cup { << <<"so3", a>>, <<"so3", b>> >> : a \in {<<1,-2,2>>}, b \in {<<0,3,-1>>, <<2,0,1>>} }
      \cup { << <<"se3", a>>, <<"r3", b>>, <<"se3", c>> >> : a \in {<<1,0,0,0,2,-1>>}, b \in {<<3,1,1>>}, c \in {<<0,-1,2,1,1,0>>} }
+     (* factors whose parameter count differs from their matrix dimension (r3: 3 / 4, r2: 2 / 3, so2: 1 / 2, se3: 6 / 4)
+        in front of other factors: the hat matrix of the sum is block diagonal in MATRIX offsets *)
+     \cup { << <<"r3", a>>, <<"so3", b>> >> : a \in {<<3,1,1>>}, b \in {<<1,-2,2>>} }
+     \cup { << <<"r2", a>>, <<"se2", b>> >> : a \in {<<1,-2>>}, b \in {<<1,3,-2>>} }
+     \cup { << <<"so3", a>>, <<"r3", b>>, <<"so3", c>> >> : a \in {<<1,-2,2>>}, b \in {<<3,1,1>>}, c \in {<<0,3,-1>>} }
+     \cup { << <<"so2", a>>, <<"se3", b>>, <<"r2", c>> >> : a \in {<<-3>>}, b \in {<<1,0,0,0,2,-1>>}, c \in {<<1,-2>>} }
 adSum(parts) == BlockDiag([k \in 1..Len(parts) |-> adm(K0(parts[k][1]), parts[k][2])])
+wedgeSum(parts) == BlockDiag([k \in 1..Len(parts) |-> Wedge(K0(parts[k][1]), parts[k][2])])
 
-InitA == \/ \E parts \in SumSet : tv = [op |-> "adsum", parts |-> parts, exp |-> adSum(parts)]
+InitA == \/ \E parts \in SumSet : tv = [op |-> "adsum", parts |-> parts, exp |-> adSum(parts), wedge |-> wedgeSum(parts)]
          \/ \E k \in 1..12 : \E X \in AdFam(k) : Valid(X) /\ tv = [op |-> "seedX", a |-> <<X>>, fam |-> k]
          \/ \E kind \in Kinds : \E x \in AlgSet(kind) : tv = [op |-> "seedx", kind |-> kind, x |-> x]
 NextA ==
